@@ -329,6 +329,20 @@ def _buffer_shape(ctx, ring: Ring, buf: str, vdefs) -> ast.Tuple:
         if len(cands) != 1:
             raise AnalysisError(f"{where}: cannot associate one definition of `{sh.id}` with this sibling (found {len(cands)})")
         sh = cands[0]
+    # `shape = A if cond else B`: the alternative that belongs to this sibling's branch (cond, or its negation, guards the sibling)
+    hops = 0
+    while isinstance(sh, ast.IfExp) and hops < 3:
+        hops += 1
+        pick = None
+        for gi, arm in ring.chain:
+            rel = U.test_relation(ctx, f, sh.test, gi.test)
+            if rel:
+                pick = (arm if rel == 1 else not arm)
+                break
+        if pick is None:
+            raise AnalysisError(f"{where}: cannot tell which alternative of the shape `{ast.unparse(sh)}` of `{buf}` belongs to this sibling "
+                                f"(its test is not one of the conditions that guard the sibling)")
+        sh = sh.body if pick else sh.orelse
     if not isinstance(sh, ast.Tuple) or not sh.elts:
         raise AnalysisError(f"{where}: shape of `{buf}` is not a tuple literal: {ast.unparse(sh)}")
     return sh
